@@ -349,11 +349,11 @@ func docLeaves(doc []byte, n int, stored []ntv) string {
 // every value of the response is reported —, one Get (JSON) of the container, and one Get
 // (JSON_IETF) naming every leaf separately, whose documents are all held until the response is
 // complete.
-func e2em(items []leafItem) string {
-	return answered(func(timeout time.Duration) string { return e2emOnce(items, timeout) })
+func e2em(items, prev []leafItem) string {
+	return answered(func(timeout time.Duration) string { return e2emOnce(items, prev, timeout) })
 }
 
-func e2emOnce(items []leafItem, timeout time.Duration) (out string) {
+func e2emOnce(items, prev []leafItem, timeout time.Duration) (out string) {
 	e, err := getEnv()
 	if err != nil {
 		return "err env:" + strings.ReplaceAll(err.Error(), " ", "_")
@@ -378,10 +378,9 @@ func e2emOnce(items []leafItem, timeout time.Duration) (out string) {
 
 	ctx, cancel := context.WithTimeout(context.Background(), timeout)
 	defer cancel()
-	if prev := pendingPrev; prev != nil {
+	if prev != nil {
 		// an earlier Set on the same leaves: what is read back below must be the values of the Set under
 		// test, whatever the stores held before (same bytes with other type options included)
-		pendingPrev = nil
 		preq := &pb.SetRequest{}
 		for i, it := range prev {
 			if i < len(items) {
@@ -392,7 +391,8 @@ func e2emOnce(items []leafItem, timeout time.Duration) (out string) {
 			if ctx.Err() != nil {
 				return "wedged"
 			}
-			return "err earlier-set-refused:" + strings.TrimPrefix(errClass(err), "err ")
+			// refused (the neighbour's value does not fit this leaf's type options, or is itself a value
+			// the server refuses): nothing of it is stored, the Set under test runs on the untouched target
 		}
 		e.plugin.mu.Lock()
 		e.plugin.lastDoc = nil
